@@ -203,12 +203,10 @@ func pairWorker(tier string, shard, nshard int) *WorkerOut {
 		}
 	}
 	if thorough {
-		for a := 0; a < len(ps); a += 3 {
-			for b := a + 1; b < len(ps); b += 4 {
-				for c := b + 1; c < len(ps); c += 5 {
-					tuples = append(tuples, []int{a, b, c})
-				}
-			}
+		// a dozen triples (34,650 interleavings each), spread over signals and options
+		n := len(ps)
+		for k := 0; k < 12; k++ {
+			tuples = append(tuples, []int{k % n, (k*7 + n/3) % n, (k*11 + 2*n/3) % n})
 		}
 	}
 	for _, tp := range tuples {
